@@ -197,6 +197,7 @@ V4Files == {<<>>} \cup {<<<<n, d, t, s>>>> : n \in Names, d \in {Z8, Nat8(2)}, t
 
 (* v5: the pool of (content type, form) pairs that DWARF 5 section 6.2.4.1  *)
 (* allows, plus vendor / unknown content types which a reader must skip    *)
+CT(hi, lo) == Add(Nat8(hi), Nat8(lo))
 PathForms == {F_string, F_line_strp, F_strp, F_strp_sup, F_strx, F_strx1, F_strx2, F_strx3, F_strx4}
 Pool == {<<Nat8(LNCT_path), f>> : f \in PathForms}
         \cup {<<Nat8(LNCT_dir), f>> : f \in {F_data1, F_data2, F_udata}}
@@ -204,8 +205,16 @@ Pool == {<<Nat8(LNCT_path), f>> : f \in PathForms}
         \cup {<<Nat8(LNCT_size), f>> : f \in {F_udata, F_data1, F_data2, F_data4, F_data8}}
         \cup {<<Nat8(LNCT_md5), F_data16>>}
         \cup {<<Nat8(LNCT_source), f>> : f \in {F_string, F_line_strp}}
-        \cup {<<Nat8(8194), F_sdata>>, <<<<0, 0, 1, 0, 0, 0, 0, 0>>, F_block1>>, <<Nat8(6), F_flag>>,
-              <<Nat8(8195), F_sec_offset>>, <<Nat8(7), F_block2>>, <<Nat8(9), F_block4>>}
+        \* unknown content types: the field is parsed by its form and ignored.  Small unknown codes
+        \* (6, 7), the vendor range 0x2000 (lo_user) / 0x3fff (hi_user), and codes >= 0x10000 -- also
+        \* above 2^32 -- whose low 16 bits alias every known code (path 1, directory_index 2,
+        \* timestamp 3, size 4, MD5 5, LLVM_source 0x2001): they must NOT be mistaken for those
+        \cup {<<Nat8(6), F_flag>>, <<Nat8(7), F_block2>>, <<Nat8(8192), F_sdata>>, <<Nat8(16383), F_sec_offset>>,
+              <<CT(65536, 0), F_block1>>, <<CT(65536, 1), F_string>>, <<CT(65536, 2), F_udata>>,
+              <<CT(65536, 3), F_data4>>, <<CT(65536, 4), F_data1>>, <<CT(65536, 5), F_data16>>,
+              <<CT(65536, 8193), F_string>>,
+              <<<<2, 0, 0, 0, 1, 0, 0, 0>>, F_udata>>,              \* 2^32 + 2
+              <<<<1, 0, 0, 0, 0, 1, 0, 0>>, F_block4>>}            \* 2^40 + 1
 IsPath(e) == e[1] = Nat8(LNCT_path)
 Formats == {f \in UNION {[1..n -> Pool] : n \in 1..FmtLen} :
               Cardinality({k \in DOMAIN f : IsPath(f[k])}) = 1}
